@@ -9,6 +9,8 @@ import vlib
 from props import fam_pdb as F
 
 
+MANIFEST = {'technique': 'Coq proof (hybrid-36 round trips for the whole ranges, line-buffer independence from earlier lines) + exact differential check of codecs/record parser + round-trip oracles on gemmi', 'text': 'Theorems: read_serial(encode n) = n for all 0 <= n <= 43770015 and read_seq_id(write_seq_id n icode) = (n, icode) for all -999 <= n <= 1223055 (general proofs, tight bounds shown by Examples); charge and altloc round trips; C06_no_stale_bytes: after next_line the whole 122-byte buffer, length and stream rest depend on the stream alone, hence every record parse is independent of earlier longer lines (the snapshot behaviour is refuted with the SEQRES witness); invariant of the line buffer; padding/CR-LF variants give the same buffer up to blank<->terminator (_partial). Model of codecs, copy_line and the SEQRES/DBREF/MODRES/HELIX/SHEET/CONECT handlers compared exactly with gemmi on generated line sequences; oracles on gemmi: write->read->write byte-identical + field equality on generated structures x options, padding/strip/CR-LF invariance on generated and repository files, every record kind cut at every length under ASan.', 'note': 'Trusted: Coq kernel; extraction; harness. No axioms. Binary<->decimal conversion (fast_float, stb), ATOM/ANISOU/CRYST1 numerics, REMARK metadata and polyheur are oracle-only. Excluded from generation (documented upstream behaviour): bytes >= 0x80 in over-long lines, CISPEP angles below -99.99, ANISOU with zero trace.'}
+
 def oracle_lines(rng, quick):
     lines = []
     # hybrid-36 codecs on the implementation, exhaustively over the ranges of the theorems
